@@ -453,6 +453,11 @@ def replay(out, path):
     seed = d.get("seed", rec.get("seed", 1))
     run_id = d.get("run")
     if run_id is None:
+        if rec.get("features", {}).get("what") == "process aborted" and d.get("args"):
+            # the run that killed the process could not be singled out: the whole race again
+            race_and_validate(out, seed, list(d["args"]), "replay", timeout=1800)
+            out.cov["rule"] = f"replay of the whole race (seed {seed})"
+            return
         raise vlib.ToolError("replay file has no run id")
     args = list(d.get("args", []))
     # keep workload-shaping arguments, drop the run range
